@@ -674,13 +674,13 @@ theorem tomoCtor_ok_iff' (c : Cls) (nS nP : Nat) (ss : List Schedule) :
       · exact g2 q hq
 
 theorem qstLists_eq (nS nP : Nat) :
-    tomoLists qstSpec nS nP = ⟨[none], List.replicate nP (some 2), [], []⟩ := rfl
+    tomoLists qstSpec nS nP = ⟨[none], List.replicate nP (some [2]), [], []⟩ := rfl
 theorem povmtLists_eq (nS nP : Nat) :
-    tomoLists povmtSpec nS nP = ⟨List.replicate nS (some 2), [none], [], []⟩ := rfl
+    tomoLists povmtSpec nS nP = ⟨List.replicate nS (some [2]), [none], [], []⟩ := rfl
 theorem qptLists_eq (nS nP : Nat) :
-    tomoLists qptSpec nS nP = ⟨List.replicate nS (some 2), List.replicate nP (some 2), [none], []⟩ := rfl
+    tomoLists qptSpec nS nP = ⟨List.replicate nS (some [2]), List.replicate nP (some [2]), [none], []⟩ := rfl
 theorem qmptLists_eq (nS nP : Nat) :
-    tomoLists qmptSpec nS nP = ⟨List.replicate nS (some 2), List.replicate nP (some 2), [], [none]⟩ := rfl
+    tomoLists qmptSpec nS nP = ⟨List.replicate nS (some [2]), List.replicate nP (some [2]), [], [none]⟩ := rfl
 
 theorem qst_one (nS nP : Nat) (ps : List (String × Int)) :
     (((∀ p ∈ ps, InRange (tomoLists qstSpec nS nP) p) ∧ OrderRule (ps.map (·.1))) ∧ TomoOneOk qstSpec ps) ↔
@@ -891,14 +891,14 @@ theorem qmpt_one (nS nP : Nat) (ps : List (String × Int)) :
 /-! ## calc_prob_dist -/
 
 
-def mprocOutcome : QT → Option Nat
+def mprocOutcome : QT → Option (List Nat)
   | .mproc m => some m
   | _ => none
 
 /-- the object a `(kind, index)` pair refers to: `some none` = the `None` placeholder -/
-def objOf (L : Lists) (p : String × Int) : Option (Option Nat) := (L.get? p.1).bind fun l => pyIndex l p.2
+def objOf (L : Lists) (p : String × Int) : Option (Option (List Nat)) := (L.get? p.1).bind fun l => pyIndex l p.2
 
-theorem lookupTargets_ok (L : Lists) (outc : String × Int → Nat) (ps : List (String × Int)) (pos : Nat)
+theorem lookupTargets_ok (L : Lists) (outc : String × Int → List Nat) (ps : List (String × Int)) (pos : Nat)
     (h : ∀ p ∈ ps, objOf L p = some (some (outc p))) :
     lookupTargets L (ps.map fun p => Item.mk p.1 p.2) pos = .ok (ps.map fun p => qtOf p.1 (outc p)) := by
   induction ps generalizing pos with
@@ -915,7 +915,7 @@ theorem lookupTargets_ok (L : Lists) (outc : String × Int → Nat) (ps : List (
       simp only [List.map_cons, Item.mk, lookupTargets, hl, hp, ih']
 
 /-- `None` placeholders are rejected: the first item (in schedule order) that refers to `None` raises -/
-theorem lookupTargets_none (L : Lists) (outc : String × Int → Nat) (pre : List (String × Int)) (p : String × Int)
+theorem lookupTargets_none (L : Lists) (outc : String × Int → List Nat) (pre : List (String × Int)) (p : String × Int)
     (post : List (String × Int)) (pos : Nat)
     (h : ∀ q ∈ pre, objOf L q = some (some (outc q))) (hp : objOf L p = some none) :
     lookupTargets L ((pre ++ p :: post).map fun p => Item.mk p.1 p.2) pos = .error (.isNone (pos + pre.length)) := by
@@ -940,43 +940,79 @@ theorem lookupTargets_none (L : Lists) (outc : String × Int → Nat) (pre : Lis
       have : pos + 1 + t.length = pos + (t.length + 1) := by omega
       rw [this]
 
-def stateLikeShape : QT → Option (List Nat)
-  | .state => some []
-  | .ens sh => some sh
-  | _ => none
+/-- the running object of `calc_prob_dist` while gates / measurement processes are applied: `none` = still a single State,
+`some sh` = a StateEnsemble with outcome shape `sh` -/
+def tempOf : Option (List Nat) → QT
+  | none => .state
+  | some sh => .ens sh
+
+def advance : Option (List Nat) → QT → Option (List Nat)
+  | none, .mproc m => some m
+  | some sh, .mproc m => some (sh ++ m)
+  | cur, _ => cur
+
+/-- shape of the distribution a POVM with local outcomes `m` produces: FLAT `[∏ m]` on a single State
+(`MultinomialDistribution(prob, prob.shape)`), `sh ++ m` on an ensemble -/
+def finalShape : Option (List Nat) → List Nat → List Nat
+  | none, m => [prodNat m]
+  | some sh, m => sh ++ m
+
+/-- closed form: the shapes of the measurement processes in order, then the POVM's local outcomes; flat when there is none -/
+def shapeOfRun (shs : List (List Nat)) (m : List Nat) : List Nat :=
+  if shs.isEmpty then [prodNat m] else shs.flatten ++ m
 
 /-- composition typing: from a state (or state ensemble) through gates and measurement processes into a POVM -/
-theorem composeFrom_typing (mid : List QT) (hmid : ∀ t ∈ mid, t = .gate ∨ ∃ m, t = .mproc m) (m : Nat) :
-    ∀ (temp : QT) (sh : List Nat), stateLikeShape temp = some sh →
-      composeFrom temp (mid ++ [.povm m]) = .ok (.dist (sh ++ mid.filterMap mprocOutcome ++ [m])) := by
+theorem composeFrom_typing (mid : List QT) (hmid : ∀ t ∈ mid, t = .gate ∨ ∃ m, t = .mproc m) (m : List Nat) :
+    ∀ cur : Option (List Nat),
+      composeFrom (tempOf cur) (mid ++ [.povm m]) = .ok (.dist (finalShape (mid.foldl advance cur) m)) := by
   induction mid with
   | nil =>
-    intro temp sh hs
-    cases temp <;> simp [stateLikeShape] at hs <;> subst hs <;> simp [composeFrom, compose]
+    intro cur
+    cases cur <;> simp [composeFrom, compose, tempOf, finalShape]
   | cons t rest ih =>
-    intro temp sh hs
+    intro cur
     have hrest : ∀ t ∈ rest, t = .gate ∨ ∃ m, t = .mproc m := fun x hx => hmid x (by simp [hx])
-    have hg : mprocOutcome .gate = none := rfl
-    have hk : ∀ k, mprocOutcome (.mproc k) = some k := fun _ => rfl
     rcases hmid t (by simp) with rfl | ⟨k, rfl⟩
-    · cases temp <;> simp [stateLikeShape] at hs <;> subst hs
-      · simp only [List.cons_append, composeFrom, compose]
-        simpa [List.filterMap_cons, hg] using ih hrest .state [] rfl
-      · rename_i sh'
-        simp only [List.cons_append, composeFrom, compose]
-        simpa [List.filterMap_cons, hg] using ih hrest (.ens sh') sh' rfl
-    · cases temp <;> simp [stateLikeShape] at hs <;> subst hs
-      · simp only [List.cons_append, composeFrom, compose]
-        simpa [List.filterMap_cons, hk] using ih hrest (.ens [k]) [k] rfl
-      · rename_i sh'
-        simp only [List.cons_append, composeFrom, compose]
-        simpa [List.filterMap_cons, hk] using ih hrest (.ens (sh' ++ [k])) (sh' ++ [k]) rfl
+    · cases cur with
+      | none =>
+        simp only [List.cons_append, composeFrom, compose, tempOf, List.foldl_cons, advance]
+        simpa [tempOf] using ih hrest none
+      | some sh =>
+        simp only [List.cons_append, composeFrom, compose, tempOf, List.foldl_cons, advance]
+        simpa [tempOf] using ih hrest (some sh)
+    · cases cur with
+      | none =>
+        simp only [List.cons_append, composeFrom, compose, tempOf, List.foldl_cons, advance]
+        simpa [tempOf] using ih hrest (some k)
+      | some sh =>
+        simp only [List.cons_append, composeFrom, compose, tempOf, List.foldl_cons, advance]
+        simpa [tempOf] using ih hrest (some (sh ++ k))
 
+theorem finalShape_foldl (mid : List QT) (m : List Nat) :
+    ∀ cur : Option (List Nat), finalShape (mid.foldl advance cur) m =
+      match cur with
+      | none => shapeOfRun (mid.filterMap mprocOutcome) m
+      | some sh => sh ++ (mid.filterMap mprocOutcome).flatten ++ m := by
+  induction mid with
+  | nil => intro cur; cases cur <;> simp [finalShape, shapeOfRun]
+  | cons t rest ih =>
+    intro cur
+    cases t with
+    | mproc k =>
+      cases cur with
+      | none =>
+        simp only [List.foldl_cons, advance, ih (some k), List.filterMap_cons, mprocOutcome, shapeOfRun]
+        simp
+      | some sh =>
+        simp only [List.foldl_cons, advance, ih (some (sh ++ k)), List.filterMap_cons, mprocOutcome]
+        simp
+    | _ =>
+      cases cur <;> simp only [List.foldl_cons, advance, ih, List.filterMap_cons, mprocOutcome]
 
-theorem filterMap_mproc (outc : String × Int → Nat) (mid : List (String × Int))
+theorem filterMap_mproc (outc : String × Int → List Nat) (mid : List (String × Int))
     (hmid : ∀ q ∈ mid, q.1 = "gate" ∨ q.1 = "mprocess") :
     (mid.map fun p => qtOf p.1 (outc p)).filterMap mprocOutcome =
-      (mid.filter fun p => p.1 = "mprocess" ∨ p.1 = "povm").map outc := by
+      (mid.filter fun p => p.1 = "mprocess").map outc := by
   induction mid with
   | nil => rfl
   | cons q t ih =>
